@@ -104,7 +104,7 @@ class BufferHarness:
         self.A = A
         self.execute = execute or simrt.execute
 
-    def run(self, prog, strategy, flavour, lines=True, delays=None):
+    def run(self, prog, strategy, flavour, lines=True, delays=None, stop_at=None):
         A = self.A
         cfg = prog['cfg']
         T = cfg['T']
@@ -239,8 +239,13 @@ class BufferHarness:
                     emit('wret', 'final', 'L')
 
                 if prog['shutdown'] is None:
-                    loop.run_until_complete(main_coro())
-                    emit('quiesced')
+                    try:
+                        loop.run_until_complete(main_coro())
+                        emit('quiesced')
+                    except RuntimeError as e:
+                        if stop_at is None or 'stopped before' not in str(e):
+                            raise
+                        emit('stopped_at_yield_point', stop_at)
                     # an orderly end: Runner-style shutdown of the idle buffer must terminate too
                 else:
                     mt = loop.create_task(main_coro())
@@ -248,6 +253,7 @@ class BufferHarness:
                     loop.run_forever()
                     if mt.done():
                         emit('quiesced')
+                box['shutting_down'] = True
                 ts = aio.all_tasks(loop)
                 emit('shutdown', len(ts))
                 for t in ts:
@@ -346,6 +352,13 @@ class BufferHarness:
         def pre(s):
             if delays and hasattr(s, 'line_delays'):
                 s.line_delays = [dict(d) for d in delays]
+            if stop_at is not None:
+                def stopper():
+                    lp = box.get('loop')
+                    if lp is not None and lp.is_running() and not box.get('shutting_down'):
+                        s.log.append(('inject_stop', stop_at, s.now))
+                        lp.stop()
+                s.at('L', stop_at, stopper)
 
         return self.execute(main, strategy, max_steps=120000, lines=lines, watchdog=60.0, pre=pre)
 
@@ -612,15 +625,45 @@ class BufferCheck(Check):
         n = self.SIZES[tier]
         nreal = self.REAL[tier] if self.pid in ('C03', 'C07') else 0
         every = max(1, n // max(1, nreal)) if nreal else 0
+        if self.pid == 'C07':
+            # loop.stop() at EVERY yield point of the loop thread for four short programs, then shutdown
+            for which in range(4):
+                for k in range(1, 900):
+                    yield {'prog': which, 'stop_at': k}
         for i in range(n):
             if nreal and i % every == 0 and i // every < nreal:
                 yield {'real': True, 'seed': (seed << 32) + i}
             yield {'seed': (seed << 32) + i}
 
+    def mini_program(self, which):
+        """short fixed programs for the complete shutdown sweep (every yield point of the loop thread)"""
+        T = 64 * U
+        base = {'cfg': {'T': T, 'fdur': [0, T / 4, T / 4, 0][which], 'fails': [[], [0], [], [0, 1]][which], 'debug': False,
+                        'deco': False, 'fail_exc': 'harness'},
+                'foreign': [], 'shutdown': None, 'migrate': None}
+        acts = [
+            [{'t': 0, 'k': 'call', 'ids': [0], 'd': 0, 'fail': None}, {'t': T / 2, 'k': 'maplist', 'ids': [1, 2], 'd': 0, 'fail': None},
+             {'t': 3 * T, 'k': 'call', 'ids': [3], 'd': 0, 'fail': None}],
+            [{'t': 0, 'k': 'await', 'ids': [0], 'd': T / 4, 'fail': None}, {'t': T / 4, 'k': 'amap', 'ids': [1, 2], 'd': T / 4, 'fail': None},
+             {'t': T / 2, 'k': 'waitnc', 'ids': [], 'd': 0, 'fail': None}],
+            [{'t': 0, 'k': 'mapiter', 'ids': [0, 1], 'd': T / 4, 'fail': 1}, {'t': T, 'k': 'wait', 'ids': [], 'd': 0, 'fail': None},
+             {'t': T, 'k': 'call', 'ids': [2], 'd': 0, 'fail': None}],
+            [{'t': 0, 'k': 'call', 'ids': [0], 'd': 0, 'fail': None}, {'t': 0, 'k': 'wait', 'ids': [], 'd': 0, 'fail': None},
+             {'t': T / 4, 'k': 'amap', 'ids': [1], 'd': 2 * T, 'fail': None}],
+        ][which]
+        base['acts'] = acts
+        return base
+
     def run_case(self, case):
         if case.get('real'):
             from vf import engine_b
             return engine_b.batch_case('buffer', self.flavour, case['seed'], 10, 'real_executions_with_foreign_threads')
+        if 'stop_at' in case:
+            rng = random.Random(case['stop_at'])
+            prog = self.mini_program(case['prog'])
+            strat = simrt.Strategy('none')
+            r = self.h.run(prog, strat, self.flavour, stop_at=case['stop_at'])
+            return self.judge(case, prog, strat, r)
         rng = random.Random(case['seed'])
         prog = gen(rng, self.flavour)
         if prog['foreign']:
@@ -649,6 +692,9 @@ class BufferCheck(Check):
                                                               'BufferAsyncCalls.wait']),
                            'nth': rng.randint(1, 40), 'd': rng.choice([T / 2, T + T / 16, 2 * T])}]
         r = self.h.run(prog, strat, self.flavour, delays=delays)
+        return self.judge(case, prog, strat, r)
+
+    def judge(self, case, prog, strat, r):
         res = CaseResult()
         res.sig = r.signature
         res.cov = {k: c for k, c in r.sched.line_cov.items() if k[0].startswith(self.anchors)}
@@ -672,6 +718,8 @@ class BufferCheck(Check):
             st['debug_mode_executions'] += 1
         if prog.get('migrate'):
             st['loop_migrated_to_another_thread'] += 1
+        if any(e[0] == 'inject_stop' for e in r.log):
+            st['shutdown_swept_at_yield_point'] += 1
         if self.pid == 'C03':
             judge_c03(v, res, r.verdict)
             if r.verdict in ('deadlock', 'stepbound', 'timebound'):
